@@ -43,6 +43,9 @@ struct Profile {
     ops: usize,
     module_faults: u64,
     empty_kind: u64,
+    /// per cent of instantiations that are salted / of stored codes that carry their own checksum
+    salted: u64,
+    own_checksum: u64,
 }
 
 fn profile(prop: &str, tier: Tier, rng: &mut Rng) -> Profile {
@@ -78,6 +81,8 @@ fn profile(prop: &str, tier: Tier, rng: &mut Rng) -> Profile {
         ops: if thorough { 60 } else { 20 },
         module_faults: 30,
         empty_kind: 25,
+        salted: 35,
+        own_checksum: 20,
     };
     match prop {
         "C01" => {
@@ -142,6 +147,8 @@ fn profile(prop: &str, tier: Tier, rng: &mut Rng) -> Profile {
         }
         "C11" => {
             p.w_store = 8;
+            p.salted = 65;
+            p.own_checksum = 50;
             p.s_inst = 12;
             p.w_helper = 8;
             p.fail = 15;
@@ -475,15 +482,18 @@ impl<'a> Gen<'a> {
         self.n_slots += 1;
         let mut node = self.node(depth + 1);
         node.bind = Some(slot);
-        let salt = match self.rng.below(10) {
-            0..=5 => None,
-            6 | 7 => Some(vec![self.rng.below(3) as u8]),
-            8 => Some(self.rng.bytes(3)),
-            _ => {
-                if self.rng.chance(1, 2) {
-                    Some(vec![])
-                } else {
-                    Some(vec![7; 65])
+        let salt = if !self.pc(self.p.salted) {
+            None
+        } else {
+            match self.rng.below(10) {
+                0..=6 => Some(vec![self.rng.below(2) as u8]),
+                7 | 8 => Some(self.rng.bytes(3)),
+                _ => {
+                    if self.rng.chance(1, 2) {
+                        Some(vec![])
+                    } else {
+                        Some(vec![7; 65])
+                    }
                 }
             }
         };
@@ -590,7 +600,7 @@ impl<'a> Gen<'a> {
 
     fn store_op(&mut self) -> Op {
         let creator = self.rng.below(self.n_accounts as u64) as u32;
-        let with_checksum = if self.rng.chance(1, 4) { Some(self.rng.below(2) as u8) } else { None };
+        let with_checksum = if self.pc(self.p.own_checksum) { Some(self.rng.below(2) as u8) } else { None };
         let r = self.rng.below(10);
         let op = if r < 5 {
             Op::StoreCode { kind: self.kind(), creator, with_checksum }
@@ -644,7 +654,7 @@ fn gen_case(rng: &mut Rng, cfg: &Cfg) -> Case {
             ops.push(Op::StoreCodeWithId { kind, creator: 0, id, with_checksum: None });
         } else {
             let kind = g.kind();
-            let with_checksum = if g.rng.chance(1, 5) { Some(0) } else { None };
+            let with_checksum = if g.pc(g.p.own_checksum) { Some(0) } else { None };
             ops.push(Op::StoreCode { kind, creator: g.rng.below(n_accounts as u64) as u32, with_checksum });
         }
         g.n_codes += 1;
